@@ -23,6 +23,10 @@ def base_desc(rnd):
         s.attrs["working-directory"] = "."
     dn = Cmd("D", "shell", inputs=["out/s.o"], outputs=["out/d.o"], salt="d")
     side = Cmd("X", "shell", inputs=["src/c.txt"], outputs=["out/x.o"], salt="x")
+    if rnd.random() < 0.5:
+        # an output that the build mutates (only its existence is checked) declared before the ordinary one
+        side.outputs = ["out/x_mut.o", "out/x.o"]
+        d.nodes["out/x_mut.o"] = {"is-mutated": "true"}
     for c in (up, s, dn, side):
         c.attrs.setdefault("description", "RUN " + c.name)
         d.cmds[c.name] = c
@@ -152,7 +156,7 @@ def pair_case(args):
             res["viol"].append(("re-run: a change of '%s' (not part of the definition) re-executed commands" % name, dict(wit, ran=r1.ran)))
         # output tampering re-runs the producer, and nothing that is not downstream of it
         if r1.rc == 0 and index % 3 == 0:
-            victim = rnd.choice(["out/u.o", "out/x.o", "out/d.o"])
+            victim = rnd.choice(["out/u.o", "out/x.o", "out/x.o", "out/d.o"])
             prod = {"out/u.o": "U", "out/x.o": "X", "out/d.o": "D"}[victim]
             if rnd.random() < 0.5:
                 sb.remove(victim)
